@@ -31,7 +31,19 @@ def main():
     is_rs = demo.endswith(".rs")
     crate = "pybigtools" if "pybigtools" in open(os.path.join(out, "RUN.txt")).read() and "-p pybigtools" in open(os.path.join(out, "RUN.txt")).read() else "bigtools"
 
+    append_mode = "--append-pybigtools" in sys.argv
+
     def run_demo():
+        if append_mode:
+            lib = os.path.join(wt, "pybigtools", "src", "lib.rs")
+            orig = open(lib).read()
+            open(lib, "w").write(orig + "\n" + open(os.path.join(out, demo)).read())
+            try:
+                rc, o = sh("timeout 2400 cargo test --offline -p pybigtools demo 2>&1 | tail -40", wt, env=env)
+            finally:
+                open(lib, "w").write(orig)
+            ok = "test result: ok" in o and "FAILED" not in o
+            return ok, o
         if is_rs:
             shutil.copyfile(os.path.join(out, demo), os.path.join(wt, crate, "tests", "demo.rs"))
             rc, o = sh("timeout 2400 cargo test --offline -p %s --test demo 2>&1 | tail -30" % crate, wt, env=env)
@@ -40,7 +52,7 @@ def main():
             return (ok and not failed), o
         else:
             shutil.copyfile(os.path.join(out, demo), os.path.join(wt, demo))
-            rc, o = sh("timeout 2400 bash %s 2>&1 | tail -30" % demo, wt, env=env)
+            rc, o = sh("bash -o pipefail -c 'timeout 2400 bash %s 2>&1 | tail -30'" % demo, wt, env=env)
             return rc == 0, o
 
     res = {}
